@@ -219,6 +219,20 @@ func c09r2(c *Ctx) {
 			c.Triv(rule, FuncName(mv), construct, c.P.InstrPos(r), "returns true: payability will be verified (safe direction)")
 			continue
 		}
+		if !isConst {
+			// `return len(args) <= min`: when the returned expression is false, what that means must be an accepted exemption
+			okNC := false
+			for _, f := range e.decode(rv, false, "returned expression is false") {
+				if sat(pred, f) {
+					okNC = true
+					c.OK(rule, FuncName(mv), construct, c.P.InstrPos(r), "false only under "+f.String())
+					break
+				}
+			}
+			if okNC {
+				continue
+			}
+		}
 		if fs, ok := e.CutAt(r, pred, nil); ok {
 			c.OK(rule, FuncName(mv), construct, c.P.InstrPos(r), "only under "+fs[0].String())
 		} else {
